@@ -84,6 +84,17 @@ class SymNP:
     def ones_like(self, a, dtype=None, **k):
         return _obj(_np.shape(a), 1.0)
 
+    def identity(self, n, dtype=None, **k):
+        a = _obj((n, n), 0.0)
+        for i in range(n):
+            a[i, i] = 1.0
+        return a
+
+    def eye(self, n, m=None, k=0, dtype=None, **kw):
+        if (m is not None and m != n) or k:
+            return _np.eye(n, m, k, dtype=dtype, **kw)
+        return self.identity(n)
+
     def diagflat(self, v, k=0):
         v = list(v)
         n = len(v)
